@@ -12,9 +12,9 @@ import sys
 
 sys.path.insert(0, os.path.dirname(os.path.dirname(os.path.abspath(__file__))))
 from pyvc.run import Repo, prepare_lattice, load_contracts       # noqa: E402
-from replay.oracle import run_real, replay_storage               # noqa: E402
+from replay.oracle import run_real, replay_storage, replay_manager   # noqa: E402
 
-_pos = [x for x in sys.argv[1:] if not x.startswith('--') and (sys.argv[sys.argv.index(x) - 1] != '--json')]
+_pos = [x for x in sys.argv[1:] if not x.startswith('--') and (sys.argv[sys.argv.index(x) - 1] not in ('--json', '--only'))]
 N = int(_pos[0]) if _pos else 40
 rnd = random.Random(int(_pos[1]) if len(_pos) > 1 else 1)
 KEYS = [dict(t='str', v=x) for x in ('a', 'b', 'c')]
@@ -41,6 +41,98 @@ def arg_for(name, default):
     return None
 
 
+# ------------------------------------------------------------------------------------------------------------------
+# random small run-time states for the sequential manager helpers
+# ------------------------------------------------------------------------------------------------------------------
+def S(x):
+    return dict(t='str', v=x)
+
+
+def random_graph():
+    """a small graph as the builder produces them: real nodes with keyword edges, optional synthetic switch node (decider edge
+    + labelled case edges) and optional one-of head (ordered candidates, marked children)"""
+    n_real = rnd.randint(2, 5)
+    real = [f'n{i}' for i in range(n_real)]
+    nodes = list(real)
+    edges, na, ea = [], {}, {}
+    for i in range(1, n_real):
+        for j in range(i):
+            if rnd.random() < 0.45 or j == i - 1 and rnd.random() < 0.5:
+                edges.append((real[j], real[i]))
+                ea.setdefault('kwarg_name', []).append([S(real[j]), S(real[i]), S(f'k_{real[j]}')])
+    for i in range(1, n_real):
+        if not any(v == real[i] for _u, v in edges):
+            edges.append((real[0], real[i]))            # nodes without marks hang off the input
+    if n_real >= 4 and rnd.random() < 0.6:
+        sw, dec_, consumer = 'switch__s', real[1], real[-1]
+        cases = rnd.sample(real[1:-1], k=min(2, len(real) - 2))
+        nodes.append(sw)
+        na.setdefault('is_switch', []).append([S(sw), dict(t='bool', v=True)])
+        edges.append((dec_, sw))
+        ea.setdefault('is_switch', []).append([S(dec_), S(sw), dict(t='bool', v=True)])
+        for li, c in enumerate(cases):
+            if c == dec_:
+                continue
+            edges.append((c, sw))
+            ea.setdefault('case_branch', []).append([S(c), S(sw), S(f'l{li}')])
+        edges.append((sw, consumer))
+        ea.setdefault('kwarg_name', []).append([S(sw), S(consumer), S('k_switch')])
+    if n_real >= 3 and rnd.random() < 0.5:
+        head, consumer = 'input_one_of__0___x', real[-1]
+        cands = rnd.sample(real[1:-1], k=min(2, len(real) - 2)) if len(real) > 2 else []
+        if cands:
+            nodes.append(head)
+            na.setdefault('is_oneof', []).append([S(head), dict(t='bool', v=True)])
+            na.setdefault('oneof_nodes', []).append([S(head), S('|'.join(cands))])     # placeholder: only its presence matters here
+            edges.append((real[0], head))
+            for c in cands:
+                na.setdefault('is_oneof_child', []).append([S(c), dict(t='bool', v=rnd.random() < 0.7)])
+                edges.append((c, head))
+            edges.append((head, consumer))
+            ea.setdefault('kwarg_name', []).append([S(head), S(consumer), S('k_oneof')])
+    edges = list(dict.fromkeys(edges))
+    return dict(nodes=[S(n) for n in nodes], edges=[[S(u), S(v)] for u, v in edges], na=na, ea=ea), nodes, real
+
+
+def manager_witness(c, fi):
+    g, nodes, real = random_graph()
+    keys = [S(n) for n in nodes]
+    results = [dict(t='none'), dict(t='int', v=0), dict(t='int', v=5), dict(t='str', v='l0'), dict(t='str', v='l1'),
+               dict(t='rec', d=dict(t='int', v=1)), dict(t='exc', cls='ValueError', id=1)]
+    storage = {}
+    for f in STORAGE_FIELDS_:
+        data, hidden = [], []
+        for k in keys:
+            if rnd.random() < 0.6:
+                if f == 'switch_results':
+                    data.append([k, dict(t='case', label=S(rnd.choice(['l0', 'l1'])), node=rnd.choice(keys))])
+                elif f == 'processed_nodes':
+                    data.append([k, dict(t='int', v=1)])
+                else:
+                    data.append([k, rnd.choice(results)])
+            if rnd.random() < 0.25:
+                hidden.append(k)
+        storage[f] = dict(data=data, hidden=hidden)
+    w = dict(kind='manager', method=c.name.split('.')[1], contract=c.key, graph=g, storage=storage,
+             input=S(real[0]), output=S(real[-1]), input_kwargs=[[S('x'), dict(t='int', v=1)]], args={})
+    params = [a.arg for a in fi.node.args.args if a.arg != 'self']
+    for p in params:
+        if p == 'dag':
+            sub = [n for n in nodes if rnd.random() < 0.75] or nodes[:1]
+            w['dag'] = dict(nodes=[S(n) for n in sub], is_recurrent=rnd.random() < 0.3, is_oneof=rnd.random() < 0.4,
+                            is_nested_oneof=rnd.random() < 0.3, source=S(real[0]), dest=S(rnd.choice(sub)))
+        elif p in ('node_id', 'switch_node_id', 'source', 'dest'):
+            w['args'][p] = S(rnd.choice(nodes))
+        elif p in ('is_recurrent', 'is_oneof', 'is_nested_oneof'):
+            w['args'][p] = dict(t='bool', v=rnd.random() < 0.4)
+        else:
+            return None
+    return w
+
+
+STORAGE_FIELDS_ = ('node_results', 'processed_nodes', 'switch_results', 'recurrent_subgraph', 'waiting_list')
+
+
 def main():
     repo = Repo()
     prepare_lattice(repo)
@@ -49,6 +141,8 @@ def main():
     total = bad = skipped = 0
     for c in reg:
         if c.path != 'ml_pipeline_engine/dag/storage.py' or getattr(c, 'assumed', False) or c.name.endswith('__init__'):
+            continue
+        if '--only' in sys.argv and sys.argv[sys.argv.index('--only') + 1] not in c.key:
             continue
         if c.name.endswith('.exists_result_type'):
             skipped += 1     # contracted only for the call shape exclude_type=(Recurrent,), inlined at its call sites
@@ -104,6 +198,45 @@ def main():
                       '->', json.dumps(real))
     if '--json' in sys.argv:
         json.dump(dict(executions=total, disagreements=DIS, skipped=skipped), open(sys.argv[sys.argv.index('--json') + 1], 'w'), indent=1)
+    # ---- the sequential manager helpers -----------------------------------------------------------------------
+    only = sys.argv[sys.argv.index('--only') + 1] if '--only' in sys.argv else None
+    m_total = m_spurious = 0
+    for c in reg:
+        if not getattr(c, 'replayable', False) or c.path != 'ml_pipeline_engine/dag/manager.py':
+            continue
+        if only and only not in c.key:
+            continue
+        fi = repo.function(c.path, c.name)
+        if fi is None:
+            continue
+        batch = [w for w in (manager_witness(c, fi) for _ in range(N)) if w is not None]
+        if not batch:
+            skipped += 1
+            continue
+        reals = run_real(batch)
+        if isinstance(reals, dict) and 'error' in reals:
+            print('ERROR', c.name, reals['error'][:300])
+            bad += 1
+            continue
+        for w, real in zip(batch, reals):
+            if 'error' in real:
+                m_spurious += 1          # the random state was not even constructible (e.g. a key error while building it)
+                continue
+            try:
+                r = replay_manager(w, real)
+            except Exception as e:   # noqa: BLE001
+                m_spurious += 1
+                continue
+            if r.get('why'):
+                m_spurious += 1          # precondition of the contract not met by the random state
+                continue
+            m_total += 1
+            total += 1
+            if r.get('reproduced'):
+                bad += 1
+                DIS.append(dict(function=c.name, failed=r['failed_clauses_on_the_real_code'], input=r.get('input'), real_code_did=real))
+                print('DISAGREE', c.name, r['failed_clauses_on_the_real_code'], json.dumps(r.get('input'))[:600], '->', json.dumps(real)[:300])
+    print(f'conformance (manager helpers): {m_total} real executions checked, {m_spurious} random states outside the preconditions')
     print(f'conformance: {total} real executions of the storage methods checked against their contracts, {bad} disagreements, '
           f'{skipped} methods skipped (parameters outside the generator)')
     sys.exit(1 if bad else 0)
